@@ -177,8 +177,7 @@ class Server(base_server.BaseServer):
                 pass
             else:
                 socket.close(reason=self.reason.SERVER_DISCONNECT)
-                if sid in self.sockets:  # pragma: no cover
-                    del self.sockets[sid]
+                self.sockets.pop(sid, None)
         else:
             clients = self.sockets.copy()
             for client in clients.values():
@@ -309,9 +308,8 @@ class Server(base_server.BaseServer):
                                 if sid in self.sockets:  # pragma: no cover
                                     self.disconnect(sid)
                                 r = self._bad_request()
-                            if sid in self.sockets and \
-                                    self.sockets[sid].closed:
-                                del self.sockets[sid]
+                            if socket.closed:
+                                self.sockets.pop(sid, None)
         elif method == 'POST':
             if sid is None or sid not in self.sockets:
                 self._log_error_once(f'Invalid session {sid}', 'bad-sid')
@@ -429,15 +427,15 @@ class Server(base_server.BaseServer):
         # reason
         ret = self._trigger_event('connect', sid, environ, run_async=False)
         if ret is not None and ret is not True:  # pragma: no cover
-            del self.sockets[sid]
+            self.sockets.pop(sid, None)
             self.logger.warning('Application rejected connection')
             return self._unauthorized(ret or None)
 
         if transport == 'websocket':  # pragma: no cover
             ret = s.handle_get_request(environ, start_response)
-            if s.closed and sid in self.sockets:
+            if s.closed:
                 # websocket connection ended, so we are done
-                del self.sockets[sid]
+                self.sockets.pop(sid, None)
             return ret
         else:  # pragma: no cover
             s.connected = True
